@@ -771,6 +771,33 @@ class _InlineExpr(ast.NodeTransformer):
         return res
 
 
+def _unroll(st):
+    """`for a, b in ((x1, y1), (x2, y2)): body` -> body[x1, y1]; body[x2, y2]  (literal sequence of names / chains / constants,
+    loop variables not assigned in the body, no break / continue)"""
+    tg = [st.target] if isinstance(st.target, ast.Name) else list(st.target.elts) if isinstance(st.target, ast.Tuple) else None
+    if tg is None or not all(isinstance(t, ast.Name) for t in tg):
+        return None
+    names = [t.id for t in tg]
+    for b in st.body:
+        for n in ast.walk(b):
+            if isinstance(n, (ast.Break, ast.Continue, ast.Lambda, ast.FunctionDef)) or \
+                    (isinstance(n, ast.Name) and n.id in names and not isinstance(n.ctx, ast.Load)):
+                return None
+    out = []
+    for e in st.iter.elts:
+        vals = [e] if isinstance(st.target, ast.Name) else list(e.elts) if isinstance(e, (ast.Tuple, ast.List)) else None
+        if vals is None or len(vals) != len(names) or not all(_simple_arg(v) for v in vals):
+            return None
+        m = dict(zip(names, vals))
+
+        class Sub(ast.NodeTransformer):
+            def visit_Name(self, n):
+                return copy.deepcopy(m[n.id]) if n.id in m else n
+
+        out += [Sub().visit(copy.deepcopy(b)) for b in st.body]
+    return out
+
+
 def _simplify(stmts, funcs, keep, counter):
     out = []
     for st in stmts:
@@ -797,6 +824,11 @@ def _simplify(stmts, funcs, keep, counter):
             tn = {t.id for t in st.targets[0].elts}
             if not any(isinstance(n, ast.Name) and n.id in tn for e in st.value.elts for n in ast.walk(e)) and len(tn) == len(st.value.elts):
                 out += [ast.Assign(targets=[t], value=v, lineno=_ln(st)) for t, v in zip(st.targets[0].elts, st.value.elts)]
+                continue
+        if isinstance(st, ast.For) and not st.orelse and isinstance(st.iter, (ast.Tuple, ast.List)) and len(st.iter.elts) <= 8:
+            un = _unroll(st)
+            if un is not None:
+                out += _simplify(un, funcs, keep, counter)
                 continue
         if isinstance(st, ast.Assign) and len(st.targets) == 1 and isinstance(st.value, ast.IfExp):
             st = ast.If(test=st.value.test, body=[ast.Assign(targets=st.targets, value=st.value.body, lineno=_ln(st))],
@@ -1150,6 +1182,28 @@ def _module_state(tree, roots, label):
             return False
         return True
 
+    classes = {n.name for n in tree.body if isinstance(n, ast.ClassDef)}
+
+    def class_read_only(name):
+        """a module-level class (enum, named tuple, ...) that the module only instantiates / reads attributes of"""
+        for n in ast.walk(tree):
+            if isinstance(n, ast.Name) and n.id == name:
+                if not isinstance(n.ctx, ast.Load):
+                    return False
+                top = n
+                while isinstance(tparent.get(top), (ast.Attribute, ast.Subscript)) and tparent[top].value is top:
+                    top = tparent[top]
+                if top is not n and not isinstance(top.ctx, ast.Load):
+                    return False
+                if isinstance(tparent.get(top), ast.AugAssign) and tparent[top].target is top:
+                    return False
+        cls = next(c for c in tree.body if isinstance(c, ast.ClassDef) and c.name == name)
+        for st in cls.body:                                   # class attributes must be immutable constants
+            if isinstance(st, (ast.Assign, ast.AnnAssign)) and getattr(st, "value", None) is not None and not lit(st.value) \
+                    and not (isinstance(st.value, ast.Call) and ast.unparse(st.value.func) in ("auto", "enum.auto")):
+                return False
+        return True
+
     def harmless(k, v):
         return (lit(v) or (isinstance(v, ast.Call) and ast.unparse(v.func) in ("logging.getLogger", "getLogger"))
                 or (container(v) and read_only(k)))
@@ -1191,10 +1245,12 @@ def _module_state(tree, roots, label):
                 continue
             if n.id in mod_funcs:
                 p = parent.get(n)
-                if isinstance(p, ast.Call) and p.func is n:
-                    todo.append(n.id)
+                if isinstance(p, ast.Call) and (p.func is n or n in p.args or any(k.value is n for k in p.keywords)):
+                    todo.append(n.id)          # called here, or handed to map / np.vectorize / partial: followed like a call
                 else:
                     flagged.append(f"{label}:{f}:{n.id} used as an object")
+                continue
+            if n.id in classes and class_read_only(n.id):
                 continue
             if hasattr(builtins, n.id) or n.id in imported or n.id in consts:
                 continue
